@@ -11,6 +11,13 @@ T = {
  'C19': ("Lean 4 theorems over an executable ASCII model of case_conversion.go: C19_roundtrip (all six schemes, every non-empty list of words over [a-z][a-z0-9]*, by induction, unbounded), C19_empty_rejected, C19_go_ident (identifiers of any length from capitalised words and initialisms under the decidable side condition GoodIdent), C19_single_initialism (finite table of the regenerated initialism list); counterexample theorems for findings D11/D14; four listed known findings.",
          "Trusted: Lean kernel + propext/Classical.choice/Quot.sound; facts translator (initialism list regenerated from source); correspondence harness (20k cases quick, 2M thorough, model == implementation). Assumed: cases.Title on [a-z0-9] words upper-cases the first character; ASCII only.",
          "Lean 4 proof (induction over word / token lists) + regenerated facts + differential correspondence with the Go implementation"),
+ 'C01': ("Lean 4 theorems over a reflect-like executable model of Pointerify and overlayField/overlayStruct/compose (every branch incl. error and panic exits): C01_precedence (every config struct type of the model universe, every well-typed default, any number of layers, every set/unset pattern: compose succeeds and each leaf holds the last layer's value that set it, else the default), C01_skipped_fixed, C01_struct_ptr_nil_iff, C01_unset_noop, C01_alignment (the two omission rules stay aligned), C01_facts (regenerated F9/F10). Interface-typed fields are outside the model universe (not in the property's quantifier).",
+         "Trusted: Lean kernel + propext/Classical.choice/Quot.sound; facts translator (omission rules of ptrify.OmitField / pointerifyField / overlayStruct and the non-struct-pointer branch regenerated from source); correspondence harness (random reflect.StructOf types + declared types with unexported/embedded fields; real Pointerify and compose vs model; leaf-wise oracle). Assumed: reflect's Set/Elem/Field semantics as re-implemented in the model; tree values (aliasing is C02/C03).",
+         "Lean 4 proof (mutual structural induction over types, induction over layers) + regenerated facts + differential correspondence with the Go implementation"),
+ 'C07': ("Lean 4 theorems over the runtime LTS: whenever the monitor answers a blocking reporter with nil, exactly one version was installed since it received that report and it holds the reported value (C07_nil_after_store, C07_view_at_reply); an error answer means nothing was installed and it is that update's stack/verify error (C07_err_view_unchanged); the waiting reporter gets exactly that answer (C07_reporter_gets_answer); a reporter whose context ends returns a context error (C07_ctx); the monitor's reply steps are always enabled (C07_monitor_never_blocks, capacities regenerated: C07_reply_capacity). Blank.SetSource is tied by correspondence (C20).",
+         RT_NOTE, RT_TECH),
+ 'C09': ("Lean 4 theorems over the runtime LTS: Verify is never invoked before EnableVerification is called in delay mode (C09_never_early, C09_config_does_not_verify); enable verifies exactly the installed config (C09_verifies_installed), on success returns it with its serial and ends the delay, on failure leaves it in force (C09_enable_reply, C09_enable_dispatch, C09_switch_on_only_by_enable_reachable); afterwards every re-stack is verified (C09_then_every_restack_verified, C09_install_skip_flag); global callbacks are withheld exactly while the delay is in force and the option is set, source-reported errors included (C09_suppression_exact, C09_source_error_forwarded, regenerated guards C09_guard_facts). The no-watcher fast path is tied by correspondence only.",
+         RT_NOTE, RT_TECH),
  'C08': ("Lean 4 theorems over the runtime LTS: every parked goroutine always has an enabled step (C08_monitor_step_enabled, C08_cb_step_enabled via a reachable-state invariant, C08_client_step_enabled), a never-returning callback cannot stop installs (C08_install_despite_blocked_cb), monitor and callback goroutine run to completion after cancel / last Done (C08_monitor_exits_on_cancel, C08_monitor_returns_to_top, C08_monitor_exits_when_all_done, C08_cb_exits_after_mon_done with an explicit fuel bound), late and blocked API calls fail instead of panicking or blocking past their context (C08_late_register_unregister, C08_blocked_returns_on_ctx, C08_exit_releases_waiters). Partial: real goroutine exit / leaks and fairness are observed by the harness (goroutine dumps), not proved.",
          RT_NOTE, RT_TECH),
 }
